@@ -97,7 +97,7 @@ def _rt(prop, quick_cases, thorough_cases, minnt, free=True, extra_quick=None):
         st.append(stage('h_runtime', _RT_HX, name='h_runtime(FREE)', deterministic=False,
                         quick=dict(cases=max(200, quick_cases // 8), min_nontrivial=0, time_budget=120, case_timeout=60, workers=8),
                         thorough=dict(cases=max(2000, thorough_cases // 8), min_nontrivial=0, time_budget=900, case_timeout=120, workers=8),
-                        env=dict(RSV_FREE=1)))
+                        env=dict(RSV_FREE=1), tag_suffix='+free'))
     return st
 
 
@@ -105,5 +105,27 @@ for _p, _q, _t, _m in (('C01', 6000, 120000, 300), ('C07', 6000, 120000, 300), (
                        ('C03', 6000, 120000, 100), ('C04', 6000, 120000, 300), ('C06', 6000, 120000, 300)):
     CHECKS[_p] = dict(stages=_rt(_p, _q, _t, _m), assumptions=_rt_assume)
 CHECKS['C10'] = dict(stages=_rt('C10', 12000, 240000, 300, free=False), assumptions=_rt_assume)
+CHECKS['C20'] = dict(stages=_rt('C20', 6000, 120000, 300), assumptions=_rt_assume + [
+    'the statistics file is read by an independent reader written from the layout tables in the documentation of log/stats.c',
+    'runs stopped by RootsimStop may differ by one record between threads (stats.c: equal counts hold in a correctly completed simulation)'])
 CHECKS['C05']['stages'].append(_rt('C05', 4000, 80000, 100, free=False)[0])
 CHECKS['C14']['stages'].append(_rt('C14', 2000, 40000, 100, free=False)[0])
+
+
+_sync_assume = ['DET explores sequentially consistent interleavings at the hook sites (before the read-modify-write, inside both spin loops, '
+                'between load and compare-and-swap, before the buffer swap); FREE adds real x86-TSO interleavings on 16 cores',
+                'reorderings allowed by the C11 model for relaxed operations but not by x86 are out of reach']
+CHECKS['C17'] = dict(stages=[
+    stage('h_barrier', ['h_barrier.c'], name='h_barrier(DET)', quick=dict(cases=20000, min_nontrivial=1000, time_budget=120, case_timeout=60),
+          thorough=dict(cases=400000, min_nontrivial=10000, time_budget=900, case_timeout=60), env=dict(RSV_FREE=0)),
+    stage('h_barrier', ['h_barrier.c'], name='h_barrier(FREE)', deterministic=False,
+          quick=dict(cases=600, min_nontrivial=0, time_budget=100, case_timeout=60, workers=4, env=dict(RSV_QUICK=1)),
+          thorough=dict(cases=8000, min_nontrivial=0, time_budget=900, case_timeout=120, workers=4), env=dict(RSV_FREE=1), tag_suffix='+free'),
+], assumptions=_sync_assume)
+CHECKS['C15'] = dict(stages=[
+    stage('h_queue', ['h_queue.c'], name='h_queue(DET)', quick=dict(cases=20000, min_nontrivial=1000, time_budget=120, case_timeout=60),
+          thorough=dict(cases=400000, min_nontrivial=10000, time_budget=900, case_timeout=60), env=dict(RSV_FREE=0)),
+    stage('h_queue', ['h_queue.c'], name='h_queue(FREE)', deterministic=False,
+          quick=dict(cases=2000, min_nontrivial=0, time_budget=100, case_timeout=60, workers=4),
+          thorough=dict(cases=40000, min_nontrivial=0, time_budget=900, case_timeout=120, workers=4), env=dict(RSV_FREE=1), tag_suffix='+free'),
+], assumptions=_sync_assume)
